@@ -146,7 +146,7 @@ Ltac split_all :=
 
 Ltac unfold_handlers M :=
   cbn [main_handler] in M;
-  unfold on_established, on_open, on_closed, on_sub_out, on_sub_in, on_open_fail, on_dial_fail, on_close,
+  unfold on_established, on_open, reusable, on_closed, on_sub_out, on_sub_in, on_open_fail, on_dial_fail, on_close,
          on_validation, on_hs_out_ok, on_hs_in_ok, on_hs_err, on_timer, hs_finish, svc_open, svc_force,
          task_die_op, ok, ok_ev in M;
   setters_in M.
